@@ -39,16 +39,16 @@ ASSUMPTIONS = [
     "and k*dr may fall on different sides); their count is reported",
     "force rows whose numerical-fallback stencil (h=1e-6) crosses a piecewise boundary are not compared",
 ]
-REQUIRED = {"special:root_on_grid": 8, "special:decay_tail": 8, "special:growth": 4, "route:api_class": 15, "route:writePotentials": 15, "route:potable": 25,
+REQUIRED = {"special:root_on_grid": 8, "special:decay_tail": 8, "special:growth": 4, "single_row_table": 2, "route:api_class": 15, "route:writePotentials": 15, "route:potable": 25,
             "blocks>=2": 20, "force:numeric_fallback": 10, "reversed_labels": 5, "rewrite:2_writes": 2, "defaults:nr_given": 1, "defaults:cutoff_given": 1, "defaults:none_given": 1}
 FMT = ("f", 8)
 
 
 @st.composite
 def _case(draw, nr_max, min_pots=1, max_pots=4, defaults=False):
-    route = "potable" if defaults else draw(st.sampled_from(["api_class", "writePotentials", "potable", "potable"]))
-    m = draw(gen.pair_model(max_pots, 2, pycallables=(route != "potable"), min_pots=min_pots))
-    cutoff, nr = draw(gen.grid_rc(nr_max))
+    route = "potable" if defaults else draw(st.sampled_from(["api_class", "writePotentials", "potable", "potable", "main"]))
+    m = draw(gen.pair_model(max_pots, 2, pycallables=(route not in ("potable", "main")), min_pots=min_pots))
+    cutoff, nr = draw(gen.grid_rc(nr_max, 2))        # nr = 2: the one-row table "N 1 R cutoff cutoff"
     if route == "potable":
         # [Tabulation] items may be left out: documented defaults cutoff 10.0, nr 1001
         given = defaults if defaults else "both"
@@ -89,11 +89,12 @@ def strategy(tier):
 def strata(tier):
     if tier == "quick":
         return [("one", _case(60, 1, 1), 4), ("several", _case(60, 2, 4), 5), ("large", _case(400), 1),
-                ("root_on_grid", _special("root_on_grid"), 1), ("decay_tail", _special("decay_tail"), 1), ("growth", _special("growth"), 0.5), ("rewrite", _rewrite(), 1), ] + [
+                ("root_on_grid", _special("root_on_grid"), 1), ("decay_tail", _special("decay_tail"), 1), ("growth", _special("growth"), 0.5), ("rewrite", _rewrite(), 1),
+                ("single_row", _case(2, 1, 3), 0.3)] + [
             ("defaults:" + g, _case(60, 1, 2, g), 0.4) for g in ("nr", "cutoff", "none")]
     return [("defaults:" + g, _case(60, 1, 2, g), 0.4) for g in ("nr", "cutoff", "none")] + [("rewrite", _rewrite(), 1), ("one", _case(60, 1, 1), 3), ("several", _case(60, 2, 4), 3), ("medium", _case(400), 3),
             ("large", _case(5000, 1, 2), 1), ("root_on_grid", _special("root_on_grid"), 1),
-            ("decay_tail", _special("decay_tail"), 1), ("growth", _special("growth"), 0.5)]
+            ("decay_tail", _special("decay_tail"), 1), ("growth", _special("growth"), 0.5), ("single_row", _case(2, 1, 3), 0.3)]
 
 
 def budget(tier):
@@ -117,9 +118,9 @@ def produce(case):
     if route == "potable":
         txt = pairtab.potable_text(case, "LAMMPS", _grid(case))
         return libroute.write_text(libroute.read_text(txt)), txt
-    if route == "cli":
+    if route in ("cli", "main"):
         txt = pairtab.potable_text(case, "LAMMPS", _grid(case))
-        res = libroute.run_potable([], txt)
+        res = (libroute.run_potable_main if route == "main" else libroute.run_potable)([], txt)
         if res["rc"] != 0 or res["out"] is None:
             raise CliFailed("rc=%r stderr=%s" % (res["rc"], res["stderr"][-600:]))
         return res["out"].decode(), txt
@@ -279,9 +280,11 @@ def check_case(case):
         cls.append("blocks>=2")
     if case["nr"] > 60:
         cls.append("nr>60")
+    if case["nr"] == 2:
+        cls.append("single_row_table")
     if case.get("given", "both") != "both":
         cls.append("defaults:" + case["given"] + "_given")
-    rk = "api" if case["route"] not in ("potable", "cli") else "potable"
+    rk = "api" if case["route"] not in ("potable", "cli", "main") else "potable"
     if any(pairtab.has_numeric(pd, rk) for _, _, pd in case["pair"]):
         cls.append("force:numeric_fallback")
     sp = case["species"]
